@@ -121,14 +121,30 @@ impl<const N: usize> Wire<N> {
         self.u8(v as u8);
     }
 
-    /// variable-length integer in exactly `len` in {1,2,4,8} bytes (x must fit)
+    /// variable-length integer in exactly `len` in {1,2,4,8} bytes (x must fit): Table 4 row by row --
+    /// 2MSB 00 / 01 / 10 / 11, then the value in network byte order on the remaining 6 / 14 / 30 / 62 bits
     pub fn varint_n(&mut self, x: u64, len: usize) {
         let at = self.n;
-        unroll!(8, i, {
-            if i < len {
-                self.b[at + i] = rfc_varint_byte(x, len, i);
-            }
-        });
+        if len == 1 {
+            self.b[at] = x as u8;
+        } else if len == 2 {
+            self.b[at] = 0x40 | (x >> 8) as u8;
+            self.b[at + 1] = x as u8;
+        } else if len == 4 {
+            self.b[at] = 0x80 | (x >> 24) as u8;
+            self.b[at + 1] = (x >> 16) as u8;
+            self.b[at + 2] = (x >> 8) as u8;
+            self.b[at + 3] = x as u8;
+        } else {
+            self.b[at] = 0xc0 | (x >> 56) as u8;
+            self.b[at + 1] = (x >> 48) as u8;
+            self.b[at + 2] = (x >> 40) as u8;
+            self.b[at + 3] = (x >> 32) as u8;
+            self.b[at + 4] = (x >> 24) as u8;
+            self.b[at + 5] = (x >> 16) as u8;
+            self.b[at + 6] = (x >> 8) as u8;
+            self.b[at + 7] = x as u8;
+        }
         self.n = at + len;
     }
 
